@@ -257,7 +257,8 @@ HEADER_FORMS = [
 
 ATOM_FORMS = ['C9 1 10.25 0.5 0.3 11.0 0.04', 'C9 1 -10.25 0.5 0.3 11.0 0.04', 'C9 1 0.2 9.75 0.3 11.0 0.04', 'C9 1 0.2 0.5 19.75 11.0 0.04', 'C9 1 20.5 0.5 -20.25 21.0 0.04',
               'C9 1 9.5 10.5 0.25 10.5 0.04', 'C9 1 0.2 0.5 0.3', 'C9 1 0.2 0.5 0.3 11.0', 'C9 1 0.2 0.5 0.3 -21.0 -1.2', 'C9 1 -0.99999 1.99999 0.00001 11.0 10.05',
-              'C9 1 0.2 0.5 0.3 11.0 0.02 0.03 0.04 0.001 -0.002 0.003', 'c9 1 0.2 0.5 0.3 11.0 0.04']
+              'C9 1 0.2 0.5 0.3 11.0 0.02 0.03 0.04 0.001 -0.002 0.003', 'c9 1 0.2 0.5 0.3 11.0 0.04',
+              'C9 1 0.2 0.5 0.3 0.00001 0.04', 'C9 1 0.2 0.5 0.3 11.0 0.00002', 'C9 1 0.00001 -0.00002 0.3 10.00001 0.04', 'C9 1 0.2 0.5 0.3 -0.00005 0.04']
 
 
 def atom_forms(ctx):
